@@ -44,6 +44,24 @@ carrying its label in the saved label map are exactly its own pixels. -/
 theorem C09_regroup_correct (f : List Tree) (n : Nat) (h : P8.WF f n) (t : Tree) (ht : t ∈ preL f) :
     (binOf (labelMap f n) t.id).Perm t.own := P8.binOf_perm f n h t ht
 
+/-- **C09 (format identification).** When writing, the extension decides (case-insensitively) and
+the two extension sets are disjoint, so the order of the handler table is irrelevant; an
+existing file is recognised from its signature whatever its name, and the two signatures are
+disjoint; an explicit format always wins; no match ⇒ `none` (the caller raises `IOError`). -/
+theorem C09_identify_write (name : List Char) :
+    (Identify.identify name false none = some .fits ↔ Identify.fitsExts.any (Identify.endsWith (Identify.lower name)) = true) ∧
+    (Identify.identify name false none = some .hdf5 ↔ Identify.hdf5Exts.any (Identify.endsWith (Identify.lower name)) = true) ∧
+    (Identify.identify name false none = none ↔
+      (Identify.fitsExts.any (Identify.endsWith (Identify.lower name)) = false ∧
+       Identify.hdf5Exts.any (Identify.endsWith (Identify.lower name)) = false)) := P14.identify_write_iff name
+theorem C09_identify_read (name : List Char) (h : List Nat) :
+    (Identify.identify name true (some h) = some .fits ↔ h.take 30 = Identify.fitsSig) ∧
+    (Identify.identify name true (some h) = some .hdf5 ↔ h.take 8 = Identify.hdf5Sig) := P14.identify_read_by_signature name h
+theorem C09_identify_unique (name : List Char) (read : Bool) (head : Option (List Nat)) :
+    ¬ (Identify.isFits name read head = true ∧ Identify.isHdf5 name read head = true) := P14.identify_unique name read head
+theorem C09_identify_explicit (f : Fmt) (name : List Char) (read : Bool) (head : Option (List Nat)) :
+    Identify.choose (some f) name read head = some f := P14.choose_explicit f name read head
+
 -- non-vacuity: a printed forest with multi-digit ids and a negative height is well formed
 example : GoodL [.node 12 "-3.500" [.node 7 "1.000" [], .node 105 "0.062" []]] := by
   simp [GoodL, GoodT, GoodH]
